@@ -38,7 +38,7 @@ CLAIMED = {
             "DESIGN.md section 3 C14"),
     "C04": ("query", "exploration",
             "deterministic simulation on the virtual clock with a reference model: real ingest -> (compaction) -> QueryNode pipeline, generated finite-window SELECTs, same SQL on a MemTable of all rows as the oracle",
-            "Datasets placed minutes / hours / days around the virtual now and on hour-bucket edges, ingested through the real Ingester with drawn flush thresholds (different chunkings of the same rows), both catalogs, both timestamp types; 6..12 generated statements per run (both operand orders; integer, TIMESTAMP-literal and now()-relative bounds; BETWEEN, =, AND/OR/NOT nests, unions of windows, windows by negation, label predicates, projections, aggregates, GROUP BY), each cold and warm, before and after a real compaction cycle, tiny/large L1 cache, adaptive indexing on/off, primed or fresh node. Answer must equal the reference as a multiset of canonically rendered rows; an error or panic where the reference succeeds is a violation. Added during the build: a third of the runs query over a flaky store (failed requests, bodies breaking part-way, delays): such a query may fail, a returned answer must still be exact.",
+            "Datasets placed minutes / hours / days around the virtual now and on hour-bucket edges, ingested through the real Ingester with drawn flush thresholds (different chunkings of the same rows), both catalogs, both timestamp types; 6..12 generated statements per run (both operand orders; integer, TIMESTAMP-literal and now()-relative bounds; BETWEEN, =, AND/OR/NOT nests, unions of windows, windows by negation, label predicates, projections, aggregates, GROUP BY), each cold and warm, before and after a real compaction cycle, tiny/large L1 cache, adaptive indexing on/off, primed or fresh node. Answer must equal the reference as a multiset of canonically rendered rows; an error or panic where the reference succeeds is a violation. Added during the build: a third of the runs query over a flaky store (failed requests, bodies breaking part-way): such a query may fail, a returned answer must still be exact.",
             "Schedule dimension is small (queries run one at a time; C10 covers concurrency): the simulator contributes the clock, the history (chunking, compaction, cache temperature) and the model; predicate shapes are seeded generation. Single-partition plans only.",
             "DESIGN.md section 3 C04"),
     "C10": ("query", "exploration",
